@@ -22,7 +22,7 @@ from pymbolic.mapper.substitutor import (CachedSubstitutionMapper, SubstitutionM
 from pbt import envs, strategies as S, walk
 from pbt.refsem import RefError, RefSkip, exc_site, ref_eval, values_close
 from pbt.runner import Result
-from pbt.spec import build, build_shared, subspecs
+from pbt.spec import build, build_shared, subspecs, twin_first, twin_how
 
 PROP = "C08"
 LEVEL = "exploration"
@@ -149,6 +149,10 @@ def check_struct(spec):
     kw = {k: build(v) for k, v in spec["kwargs"]}
     full = dict(d)
     full.update(kw)
+    if twin_first(spec["expr"], twin_how(spec["expr"]),
+                  lambda t: substitute(t, dict(d), **kw),
+                  lambda t: SubstitutionMapper(make_subst_func(full))(t)):
+        res.label("twin-first")
     runs = (("SubstitutionMapper", lambda: SubstitutionMapper(make_subst_func(full))(e)),
             ("CachedSubstitutionMapper",
              lambda: CachedSubstitutionMapper(make_subst_func(full))(e)),
@@ -243,6 +247,8 @@ def check_commute(spec):
     e = build(spec["expr"])
     repl = {k: build(v) for k, v in spec["subst"]}
     env = envs.build_env(spec["env"])
+    if twin_first(spec["expr"], twin_how(spec["expr"]), lambda t: substitute(t, dict(repl))):
+        res.label("twin-first")
     try:
         lhs_tree = substitute(e, dict(repl))
     except Exception as exc:
